@@ -183,7 +183,7 @@ fn parse_unc<const N: usize>() {
                 Ok(ref full) => same_name(name, full),
                 Err(_) => assert!(false, "[C14] uncompressed and compressed reference disagree"),
             }
-            kani::cover!(*n > 3, "accepted name with a label");
+            kani::cover!(N < 3 || *n > 2, "accepted name (with a non-root label when the buffer can hold one)");
         }
         (Err(_), Ok(en)) => assert!(use_all && *en < N, "[C14] try_from_uncompressed rejects a valid name"),
         (Ok(_), Err(_)) => assert!(false, "[C14] try_from_uncompressed accepts an invalid name"),
